@@ -5,6 +5,7 @@ import TomlVerif.Driver.Canon
 import TomlVerif.Driver.Stack
 import TomlVerif.Driver.C15
 import TomlVerif.Driver.C04
+import TomlVerif.Driver.C18
 
 open TomlVerif
 
@@ -18,6 +19,7 @@ def dispatch (mode : String) (line : String) : String :=
   | "stack" => Driver.stackLine line
   | "c15" => Driver.c15 line
   | "c04" => Driver.c04 line
+  | "c18" => Driver.c18 line
   | _ => "bad-mode"
 
 partial def loop (mode : String) (h : IO.FS.Stream) (out : IO.FS.Stream) : IO Unit := do
